@@ -175,13 +175,18 @@ def run(ctx):
             base = n.left.value if isinstance(n.left, ast.Subscript) else n.left
             if isinstance(base, ast.Name) and base.id in mats:
                 prods.append(n)
+    from ..flow import Locals
+
+    Lr = Locals(f.node)
+    dparam = f.params()[1]
     idxs = {norm_text(p.left.slice) if isinstance(p.left, ast.Subscript) else "<all rows>" for p in prods}
-    filt = any(isinstance(n, ast.Assign) and "np.isin" in norm_text(n.value) and "ownedDofs" in norm_text(n.value) for n in ast.walk(f.node)) and any(isinstance(n, ast.Assign) and norm_text(n.value) == "ownedDofs" for n in ast.walk(f.node))
-    red = any(isinstance(n, ast.Return) and "Reduce_sum" in norm_text(n.value) for n in ast.walk(f.node) if isinstance(n, ast.Return) and n.value is not None)
-    if len(prods) >= 3 and idxs == {"dofs"} and filt and red:
-        r1.ok(f"Calc_Reaction: {len(prods)} products X[dofs] @ state with dofs filtered by the owned dofs; reduced under MPI")
+    dvals = [Lr.text(v) for v in Lr.all_defs(dparam)]
+    filt = len(dvals) >= 2 and all(("self.Get_dofs(" in t) for t in dvals) and any("np.isin(" in t for t in dvals)
+    red = any("Reduce_sum" in norm_text(n.value) for n in ast.walk(f.node) if isinstance(n, ast.Return) and n.value is not None)
+    if len(prods) >= 3 and idxs == {dparam} and filt and red:
+        r1.ok(f"Calc_Reaction: {len(prods)} products X[{dparam}] @ state with {dparam} filtered by the owned dofs; reduced under MPI")
     else:
-        r1.fail(f.qualname, "owned-rows", f.file, f.lineno, "Calc_Reaction", f"operator rows are indexed by {sorted(idxs)} (must all be the owned-filtered `dofs`), filtered={filt}, reduced={red}")
+        r1.fail(f.qualname, "owned-rows", f.file, f.lineno, "Calc_Reaction", f"operator rows are indexed by {sorted(idxs)} (must all be the owned-filtered `{dparam}`), filtered={filt}, reduced={red}")
     f = simu.methods["Get_dofs"]
     r1.instance(fn=f.qualname)
     okd = any(isinstance(n, ast.If) and "MPI_SIZE > 1" in norm_text(n.test) and "_Get_mpi_owned_nodes" in norm_text(ast.Module(body=n.body, type_ignores=[])) for n in ast.walk(f.node))
@@ -227,7 +232,7 @@ def run(ctx):
     fg = mesher.methods["__Get_partitioned_groupElems"]
     txt = norm_text(fg.node)
     r3.instance(fn=fg.qualname)
-    loops = [n for n in ast.walk(fg.node) if isinstance(n, ast.For) and isinstance(n.iter, ast.Call) and "range(Nproc)" == norm_text(n.iter)]
+    loops = [n for n in ast.walk(fg.node) if isinstance(n, ast.For) and isinstance(n.iter, ast.Call) and dotted(n.iter.func) == "range" and len(n.iter.args) == 1 and isinstance(n.iter.args[0], ast.Name)]
     inner = [l for l in loops if any(isinstance(x, ast.If) and isinstance(x.test, ast.Compare) and isinstance(x.test.ops[0], ast.Eq) and any(isinstance(b, ast.Continue) for b in x.body) for x in l.body)]
     mask_ok = any(isinstance(n, ast.Call) and isinstance(n.func, ast.Attribute) and n.func.attr == "any" and "np.isin" in norm_text(n.func.value) and any(k.arg == "axis" and norm_text(k.value) == "1" for k in n.keywords) for n in ast.walk(fg.node))
     if inner and mask_ok:
@@ -236,7 +241,7 @@ def run(ctx):
         r3.fail(fg.qualname, "ghost-search", fg.file, fg.lineno, "__Get_partitioned_groupElems", "the ghost search does not (loop over all other ranks; keep elements with np.isin(connect, owned).any(axis=1))")
     r3.instance(fn=fg.qualname)
     uniq = [n for n in ast.walk(fg.node) if isinstance(n, ast.Assign) and isinstance(n.value, ast.Call) and (dotted(n.value.func) or "") == "np.unique" and "np.concatenate" in norm_text(n.value)]
-    if uniq and "ghost" in norm_text(uniq[0].value):
+    if uniq and len([x for x in ast.walk(uniq[0].value) if isinstance(x, ast.Name)]) >= 2:
         r3.ok("group connectivity rows = np.unique(concatenate(owned, ghost))")
     else:
         r3.fail(fg.qualname, "all-idx", fg.file, fg.lineno, "__Get_partitioned_groupElems", "the rank's element rows are not unique(owned + ghost)")
@@ -244,22 +249,52 @@ def run(ctx):
     calls = [n for n in ast.walk(fg.node) if isinstance(n, ast.Call) and (dotted(n.func) or "").endswith("_Set_partitioned_data")]
     fset = repo.cls(GE).methods["_Set_partitioned_data"]
     ps = fset.params()[1:]
+    # the ghost collection: the set updated with rows selected by the isin(...).any(axis=1) mask
+    ghost = None
+    for n in ast.walk(fg.node):
+        if isinstance(n, ast.Call) and isinstance(n.func, ast.Attribute) and n.func.attr == "update" and isinstance(n.func.value, ast.Name) and n.args and isinstance(n.args[0], ast.Subscript):
+            mk = n.args[0].slice
+            if isinstance(mk, ast.Name):
+                d = [a for a in ast.walk(fg.node) if isinstance(a, ast.Assign) and any(isinstance(t, ast.Name) and t.id == mk.id for t in a.targets)]
+                if d and ".any(axis=1)" in norm_text(d[0].value):
+                    ghost = n.func.value.id
+    rankvar = next((l.target.id for l in loops if isinstance(l.target, ast.Name) and any(c in ast.walk(l) for c in calls)), None)
     okc = False
-    if calls:
+    args = []
+    if calls and ghost:
         c = calls[0]
         args = [norm_text(a) for a in c.args]
-        okc = len(args) == 4 and "idx_r" in args[0] and "nodes" in args[1] and args[2] == "rank" and "ghost" in args[3] and ps == ["elements", "nodes", "rank", "ghostElements"]
+        names = [{x.id for x in ast.walk(a) if isinstance(x, ast.Name)} for a in c.args]
+        okc = len(c.args) == 4 and ghost in names[3] and ghost not in names[0] and ghost not in names[1] and names[2] == {rankvar} and ps == ["elements", "nodes", "rank", "ghostElements"] and not c.keywords
     if okc:
-        r3.ok(f"_Set_partitioned_data({', '.join(args)}) matches the parameter order {ps}")
+        r3.ok(f"_Set_partitioned_data({', '.join(args)}): owned rows, owned nodes, the rank, ghost rows - in the parameter order {ps}")
     else:
-        r3.fail(fg.qualname, "partition-args", fg.file, fg.lineno, "__Get_partitioned_groupElems", f"partition data are not passed in the order {ps}")
+        r3.fail(fg.qualname, "partition-args", fg.file, fg.lineno, "__Get_partitioned_groupElems", f"partition data ({', '.join(args)}) are not passed as (owned elements, owned nodes, rank, ghost elements) = {ps}")
 
     r4 = ctx.rule("R20.4", "merge bookkeeping: the node mapping of mesh i is old_to_new[off_i : off_i + size_i] with the offsets used to shift its connectivity", min_instances=1)
     fm = repo.cls(MESH).methods["Merge"]
     r4.instance(fn=fm.qualname)
-    shift = any(isinstance(n, ast.For) and "zip(list_mesh, offsets)" == norm_text(n.iter) and "old_to_new[groupElem.connect + off]" in norm_text(n) for n in ast.walk(fm.node))
-    mapping = any(isinstance(n, ast.Assign) and "mapping" in norm_text(n.targets[0]) and "old_to_new[off:off + s]" in norm_text(n.value).replace(" ", "").replace("off:off+s", "off:off + s") and "zip(offsets, sizes)" in norm_text(n.value) for n in ast.walk(fm.node))
-    offs = any(isinstance(n, ast.Assign) and norm_text(n.targets[0]) == "offsets" and "np.cumsum(sizes[:-1])" in norm_text(n.value) for n in ast.walk(fm.node))
+    Lm = Locals(fm.node)
+    offs_name = None
+    shift = False
+    for n in ast.walk(fm.node):
+        if isinstance(n, ast.For) and isinstance(n.iter, ast.Call) and dotted(n.iter.func) == "zip" and len(n.iter.args) == 2 and isinstance(n.target, ast.Tuple) and len(n.target.elts) == 2:
+            offv = n.target.elts[1]
+            body = [x for x in ast.walk(n) if isinstance(x, ast.Subscript) and isinstance(x.slice, ast.BinOp) and isinstance(x.slice.op, ast.Add) and ".connect" in norm_text(x.slice.left) and isinstance(x.slice.right, ast.Name) and isinstance(offv, ast.Name) and x.slice.right.id == offv.id]
+            if body and isinstance(n.iter.args[1], ast.Name):
+                shift = True
+                offs_name = n.iter.args[1].id
+                map_name = norm_text(body[0].value)
+    mapping = False
+    for n in ast.walk(fm.node):
+        if isinstance(n, ast.ListComp) and isinstance(n.elt, ast.Subscript) and isinstance(n.elt.slice, ast.Slice) and len(n.generators) == 1:
+            g = n.generators[0]
+            if isinstance(g.iter, ast.Call) and dotted(g.iter.func) == "zip" and len(g.iter.args) == 2 and isinstance(g.iter.args[0], ast.Name) and g.iter.args[0].id == offs_name and isinstance(g.target, ast.Tuple) and len(g.target.elts) == 2:
+                a, b = (norm_text(e) for e in g.target.elts)
+                lo, up = norm_text(n.elt.slice.lower), norm_text(n.elt.slice.upper)
+                if lo == a and up.replace(" ", "") in (f"{a}+{b}", f"{b}+{a}") and shift and norm_text(n.elt.value) == map_name:
+                    mapping = True
+    offs = offs_name is not None and "np.cumsum(" in Lm.text(ast.Name(id=offs_name, ctx=ast.Load())) and "[:-1]" in Lm.text(ast.Name(id=offs_name, ctx=ast.Load()))
     if shift and mapping and offs:
         r4.ok("Merge: connect + off and mapping[off : off + size] use the same exclusive prefix sums of the node counts")
     else:
